@@ -591,7 +591,7 @@ def write_evidence(ctx, rc):
         if k not in ev["coverage"] and k not in ("stats", "axioms", "harness"):
             ev["coverage"][k] = v
     # evidence belongs to runs against /repo itself; runs against a scratch worktree (VERIF_REPO) keep theirs in scratch
-    evdir = os.path.join(VERIF, "evidence") if os.path.realpath(REPO) == "/repo" else ctx.scratch
+    evdir = os.path.join(VERIF, "evidence") if (os.path.realpath(REPO) == "/repo" and ctx.replay is None) else ctx.scratch
     os.makedirs(evdir, exist_ok=True)
     with open(os.path.join(evdir, ctx.pid + ".json"), "w") as f:
         json.dump(ev, f, indent=1, sort_keys=True)
